@@ -1533,6 +1533,16 @@ func (s *sharedEntryAttributes) containsOnlyDefaults() bool {
 	return true
 }
 
+// presenceValueToRender reports whether the presence container itself (not its childs) carries a
+// value that remains after the transaction and is part of the requested view.
+func (s *sharedEntryAttributes) presenceValueToRender(onlyNewOrUpdated bool) bool {
+	if s.leafVariants.shouldDelete() {
+		return false
+	}
+	le := s.leafVariants.GetHighestPrecedence(onlyNewOrUpdated, false)
+	return le != nil && !le.GetDeleteFlag()
+}
+
 type UpdateInsertFlags struct {
 	new          bool
 	delete       bool
